@@ -71,11 +71,11 @@ def in_domain_un(op, x):
     if op == "exp":
         return abs(x) < 6
     if op in ("sin", "cos", "atan"):
-        return abs(x) < 50
+        return abs(x) < 12
     if op in ("tan", "sec"):
-        return abs(x) < 50 and abs(math.cos(x)) > 0.125
+        return abs(x) < 12 and abs(math.cos(x)) > 0.125
     if op in ("csc", "cot"):
-        return abs(x) < 50 and abs(math.sin(x)) > 0.125 and (op != "cot" or abs(math.cos(x)) > 0.05)
+        return abs(x) < 12 and abs(math.sin(x)) > 0.125 and (op != "cot" or abs(math.cos(x)) > 0.05)
     if op in ("asin", "acos"):
         return abs(x) < 0.875
     return False
@@ -329,7 +329,7 @@ def coq_obj(m, I):
 def coq_case(model, corr, observations, I, with_sources=True):
     """model: list oldest first"""
     objs = coq_list([coq_obj(m, I) for m in reversed(model)])
-    tbl = coq_list(["({}, {}, {})".format(i, j, qlit(r)) for i, j, r in corr])
+    tbl = coq_list(["({}%nat, {}%nat, {})".format(i, j, qlit(r)) for i, j, r in corr])
     vscale = max([1.0] + [abs(o["value"]) for o in observations] + [abs(m[1]) for m in model if m[0] == "meas"])
     dscale = max([1.0] + [abs(d) for o in observations for _, d in o["derivs"]])
     obs = coq_list(["({}%nat, {}, {}, {}, {})".format(
@@ -363,14 +363,30 @@ def _rv(vals, ref):
 
 
 def fd_derivative(model, k, m):
-    """Richardson-extrapolated central difference of object k with respect to measurement m"""
+    """Ridders' extrapolated central differences of object k with respect to measurement m;
+    returns (estimate, error estimate)"""
     v = model[m][1]
-    h = max(abs(v), 1.0) * 2.0 ** -9
+    h = max(abs(v) / 8, 1.0) * 2.0 ** -6
+    con, safe, ntab = 1.4, 2.0, 10
 
-    def cd(step):
-        return (interp(model, k, {m: v + step})[k] - interp(model, k, {m: v - step})[k]) / (2 * step)
-    d1, d2 = cd(h), cd(h / 2)
-    return (4 * d2 - d1) / 3
+    def f(x):
+        return interp(model, k, {m: x})[k]
+    a = [[0.0] * ntab for _ in range(ntab)]
+    a[0][0] = (f(v + h) - f(v - h)) / (2 * h)
+    err, ans = float("inf"), a[0][0]
+    for i in range(1, ntab):
+        h /= con
+        a[0][i] = (f(v + h) - f(v - h)) / (2 * h)
+        fac = con * con
+        for j in range(1, i + 1):
+            a[j][i] = (a[j - 1][i] * fac - a[j - 1][i - 1]) / (fac - 1)
+            fac *= con * con
+            errt = max(abs(a[j][i] - a[j - 1][i]), abs(a[j][i] - a[j - 1][i - 1]))
+            if errt <= err:
+                err, ans = errt, a[j][i]
+        if abs(a[i][i] - a[i - 1][i - 1]) >= safe * err:
+            break
+    return ans, err
 
 
 def reachable_measurements(model, k):
@@ -387,7 +403,7 @@ def reachable_measurements(model, k):
     return sorted(seen)
 
 
-def oracle_object(model, corr, obs):
+def oracle_object(model, corr, obs, derivs_only=False):
     """check one observed derived object against the property text; returns None or a description"""
     k = obs["id"]
     try:
@@ -404,14 +420,18 @@ def oracle_object(model, corr, obs):
     dref = {}
     for m, d in obs["derivs"]:
         try:
-            fd = fd_derivative(model, k, m) if m in srcs else 0.0
+            fd, fderr = fd_derivative(model, k, m) if m in srcs else (0.0, 0.0)
         except (ValueError, ZeroDivisionError, OverflowError):
             return None
+        if not fderr <= 1e-6 * (abs(fd) + 1e-3):
+            return None        # finite differences inconclusive on this (ill-conditioned) formula
         dref[m] = fd
-        tol = 2e-6 * max(abs(fd), abs(d)) + 1e-7 * (1 + abs(f0)) / max(1.0, abs(model[m][1]))
+        tol = 2e-6 * max(abs(fd), abs(d)) + 20 * fderr + 1e-7 * (1 + abs(f0)) / max(1.0, abs(model[m][1]))
         if not abs(fd - d) <= tol:
             return "derivative with respect to measurement {} is {} but the partial derivative of the formula is {}".format(
                 m, d, fd)
+    if derivs_only:
+        return None
     var = 0.0
     for i in srcs:
         var += (dref[i] * model[i][2]) ** 2
